@@ -193,8 +193,50 @@ func RunECDSA(raw json.RawMessage, seed int64) (res Result) {
 			cand = enc(new(big.Int).Add(cur.N, big.NewInt(1)), s0)
 		}
 	case "s=n+1":
-		cand = enc(r0, new(big.Int).Add(cur.N, s0))
-		if new(big.Int).Add(cur.N, s0).BitLen() > 256 {
+		// s + n only fits in 32 bytes when s is tiny: craft a key for which a tiny s is a valid signature of this message:
+		// pick k, r = (kG).x mod n, s small, d = (s*k - e) / r mod n; then (r, s) verifies under d and (r, s + n) must not
+		if signRef != nil {
+			e0 := e(signRef(msg))
+			for try := 0; try < 20; try++ {
+				kb := make([]byte, 40)
+				rng.Read(kb)
+				k := new(big.Int).Mod(new(big.Int).SetBytes(kb), cur.N)
+				if k.Sign() == 0 {
+					continue
+				}
+				R := cur.Mul(cur.G(), k)
+				rr := new(big.Int).Mod(R.X, cur.N)
+				if rr.Sign() == 0 {
+					continue
+				}
+				ss := big.NewInt(int64(1 + rng.Intn(1000)))
+				dd := new(big.Int).Mul(ss, k)
+				dd.Sub(dd, e0)
+				dd.Mul(dd, new(big.Int).ModInverse(rr, cur.N))
+				dd.Mod(dd, cur.N)
+				if dd.Sign() == 0 {
+					continue
+				}
+				ddb := make([]byte, 32)
+				dd.FillBytes(ddb)
+				csk, err := crypto.DecodePrivateKey(algo, ddb)
+				if err != nil {
+					continue
+				}
+				// sanity of the construction: the tiny-s signature itself is valid, for the reference and for the library
+				if !cur.ECDSAVerify(cur.Mul(cur.G(), dd), e0, rr, ss) {
+					add("HarnessConstruction", "crafted tiny-s signature fails the reference equation")
+					break
+				}
+				if ok, err := csk.PublicKey().Verify(enc(rr, ss), msg, signH); !ok || err != nil {
+					add("VerifyExact", fmt.Sprintf("the valid signature (r, s=%v) is rejected (%v, %v)", ss, ok, err))
+				}
+				vpk, vpub = csk.PublicKey(), cur.Mul(cur.G(), dd)
+				cand = enc(rr, new(big.Int).Add(ss, cur.N))
+				break
+			}
+		}
+		if len(cand) == 64 && bytes.Equal(cand, sig) {
 			cand = enc(r0, new(big.Int).Add(cur.N, big.NewInt(1)))
 		}
 	case "r=max":
